@@ -56,9 +56,9 @@ RESULTS2 = {
  "C10-r2-1": ("C10", ""), "C10-r2-2": ("C10", ""),
  "C10-r2-3": ("C10", "after requests with an Authorization header that carries no usable credentials were added"),
  "C10-r2-4": ("C10", "after blank passwords were added"),
- "C11-r2-1": ("", "MISSED: second POST half with a cookie that is being paired, within a window of a few goroutine switches in the server loop; no yield site there"),
+ "C11-r2-1": ("C11", "after the tunnel race scenario (one GET half, several POST halves with its cookie from one address a few ms apart, holds on the connection shutdown path) was added"),
  "C11-r2-2": ("C11", ""),
- "C11-r2-3": ("", "MISSED: needs one connection pipelining a request at the instant another connection of the same address tears its session down; C11's hostile connections come from different addresses"),
+ "C11-r2-3": ("C11", "after application-initiated ServerConn.Close from inside a method callback with pipelined requests behind it was added"),
  "C11-r2-4": ("C11", "after requests on '*' inside a session were added; server panic"),
  "C12-r2-1": ("C12", "after the HTTP-tunnelled client and the server that answers and then stops reading were added"),
  "C12-r2-2": ("C12", "after the sticky 401 behaviour was added"),
@@ -68,10 +68,10 @@ RESULTS2 = {
  "C13-r2-2": ("C13", ""), "C13-r2-3": ("C13", "hang"),
  "C13-r2-4": ("C13", "after back-channel talkers were added; server crash"),
  "C14-r2-1": ("C14", "after the concurrent report mode (simulation-aware locks, yields in receiver.go) was added"),
- "C14-r2-2": ("", "MISSED: client-side receiver created as reliable when AnyPortEnable meets a SETUP answer without server ports; no check drives that combination with reordering"),
+ "C14-r2-2": ("C14", "after the whole-system mode (real Client against a scripted server with / without server ports, real Server with a scripted publisher, datagrams lost / duplicated / displaced by the simulated network) was added"),
  "C14-r2-3": ("C14", ""), "C14-r2-4": ("C14", ""),
  "C15-r2-1": ("", "OUTSIDE THE QUANTIFIER: the overflow needs more than 2^63/(1e9*rate) s between a time anchor and a report, i.e. a timestamp step beyond 2^31 ticks before the next packet can observe it"),
- "C15-r2-2": ("", "MISSED: needs a writer whose NTP steps backwards; the generator's association between ticks and wall time is linear"),
+ "C15-r2-2": ("C15", "after corrections of the writer's absolute time in the middle of a track were added"),
  "C15-r2-3": ("", "SILENT BY DESIGN: the statement does not say which packet anchors a late track when the leading track's last packet has PTS != DTS; the oracle accepts both readings (assumption listed in the evidence)"),
  "C15-r2-4": ("C15", ""),
  "C16-r2-1": ("C16", ""), "C16-r2-2": ("C11", "same change as C11-4"),
